@@ -467,7 +467,7 @@ def group_of(case):
     return case.tag
 
 
-CLAIMED = True
+CLAIMED = False  # temporarily: model of the constant-evaluated gcem rounding path must be reconciled with the C13 fixes on main
 TECHNIQUE = ("Lean 4 proof of a bit-level IEEE-754 specification (all formats) + three-way correspondence "
              "etl = Lean spec = glibc on up to all 2^32 float patterns; approximating functions: differential only")
 LEVEL_TEXT = ("The exact cmath functions (floor, ceil, trunc, round, rint, lrint/llrint, fabs/abs, copysign, signbit, fmin, fmax, fdim, "
